@@ -417,7 +417,7 @@ class TimeRecurrence:
                       "duration": self._duration}
         elif self._format_number == 4:
             kwargs = {"end_point": self._end_point + other,
-                      "duration": self._duration}
+                      "duration": self._duration or Duration(years=0)}
         return self.__class__(
             repetitions=self._repetitions, **kwargs,
             min_point=self._min_point, max_point=self._max_point)
